@@ -7,10 +7,11 @@ the public compile_prolog_from_string.  The model (evaluated inside Coq) returns
 and either the stage that refuses the text or the AST."""
 import re, random
 from lib import ast_io
+from lib import emitcheck as E
 from lib.terms import g_str
 
 ID = 'C10'
-IMPORTS = ['Lang.Front', 'Lang.FrontCompile']
+IMPORTS = ['Lang.Ast', 'Lang.Front', 'Comp.RunCompile']
 THEOREMS = ['C10_rule_scan_exact', 'C10_rule_scan_none', 'C10_lex_maximal_munch', 'C10_lex_exact', 'C10_lex_error_spec',
             'C10_lex_complete', 'C10_parse_yield', 'C10_ast_clause_count', 'C10_front_whole_input',
             'C10_parse_complete', 'C10_parse_complete_fuel', 'C10_parse_spec', 'C10_parse_none_spec', 'C10_parse_unambiguous',
@@ -386,7 +387,9 @@ def builtin_corpus():
     return [{'src': s, 'kind': 'corpus', 'base_clauses': 1} for s in srcs]
 
 def model_expr(case):
-    return '(run_all %s)' % g_str(case['src'])
+    # token stream and front end (Lang/Front.v); verdict and emitted text of the whole pipeline (Comp/RunCompile.v: compile_text =
+    # front, compile_program, the compiler's own refusals, emit_program with the model of repr(), CPython's size limits)
+    return '(OL [run_lex %s; run_front %s; %s])' % (g_str(case['src']), g_str(case['src']), E.model_text_expr(case['src']))
 
 # ------------------------------------------------------------------ implementation
 
@@ -416,10 +419,14 @@ def impl(case):
     try:
         code = C.compile_prolog_from_string(src)
         out['compile'] = ['ok', sorted(set(re.findall(r'^def (\w+)\(', code, re.M))), code]
+        out['verdict'] = 'text'
     except RecursionError:
         raise
     except Exception as e:
         out['compile'] = _exc(e) + ['too large' in str(e)]
+        cls, msg = type(e).__name__, str(e)
+        out['verdict'] = ('too-large' if cls == 'CompilerError' and 'program too large for Python' in msg else
+                          'reject-numeral' if cls == 'ValueError' and 'integer string conversion' in msg else 'reject-front')
     # the other public entry points of the same pipeline: compile_prolog_from_file and the command line (yldpc)
     try:
         import os, click.testing
@@ -480,40 +487,25 @@ def compare(case, io, mo):
             return 'tie: a text outside the grammar (%s) is refused with %s instead of CompilerSyntaxError' % (mfront[0], io['compile'][1])
         if mfront[0] == 'refused' and io['ast'] == ['raised', 'CompilerSyntaxError']:
             return 'tie: the implementation reports a syntax error for a sentence of the grammar (which the visitor refuses)'
+        if mtext[0] != 'reject-front':
+            return 'tie: the front end model refuses the text, the pipeline model does not (%s)' % mtext[0]
         return None
     prog = group(mfront[1])
-    if mtext[0] == 'none':
-        # the front end model has an AST, the compiler model refuses it: a compound term or goal named by a numeral (`1(a)`)
-        # reaches the intermediate code.  The implementation's visitor builds the same AST and its compiler raises.
-        if io['ast'][0] == 'ok' and io['ast'][1] != prog:
-            return 'the AST built by the implementation differs from the model AST (clauses omitted, altered or reordered)'
-        if _accepted(io):
-            return 'the compiler model refuses this text (a numeral-named compound term reaches the compiler) but compile_prolog_from_string returns code'
-        return None
     if io['ast'][0] != 'ok':
-        return 'tie: the model accepts this text, the implementation front end raises %s' % io['ast'][1]
+        return 'tie: the model front end has an AST for this text, the implementation front end raises %s' % io['ast'][1]
     if io['ast'][1] != prog:
         return 'the AST built by the implementation differs from the model AST (clauses omitted, altered or reordered)'
-    if not _accepted(io):
-        if io['compile'][1] == 'CompilerError' and io['compile'][2]:
-            return None
-        return 'tie: the model accepts this text, compile_prolog_from_string raises %s' % io['compile'][1]
-    want = sorted({'%s_%d' % (g[0], g[1]) for g in prog})
-    if io['compile'][1] != want:
-        return 'the compiled code defines %r, the model program has the predicates %r' % (io['compile'][1], want)
-    # the whole pipeline: the text returned by compile_prolog_from_string is the text the model compiler emits for the
-    # model AST of the source (every clause, in order, nothing else) -- compared byte for byte when every name in the
-    # program is a plain printable-ASCII string (the model of repr() for other strings belongs to C12)
-    if _repr_simple(mfront[1]):
+    # the whole pipeline (Comp/CompileText.compile_text): verdict -- text / refused by the compiler itself (a compound term named
+    # by a numeral that the compiler reaches; a numeral beyond int()'s limit) / too large for CPython -- and, when text is
+    # returned, the text itself, byte for byte: every clause of the source, in order, nothing else
+    r = E.compare_verdicts(case['src'], io['verdict'], io['compile'][2] if _accepted(io) else None, mtext)
+    if r:
+        return 'whole pipeline: ' + r
+    if _accepted(io):
         _STATS['text_compared'] += 1
-        if mtext[0] != 'text':
-            return 'tie: the model compiler produced no text'
-        if io['compile'][2] != mtext[1]:
-            a, b = io['compile'][2].split('\n'), mtext[1].split('\n')
-            for i, (x, y) in enumerate(zip(a, b)):
-                if x != y:
-                    return 'the emitted text differs from the model compiler\'s text for the model AST at line %d: %r vs %r' % (i + 1, x, y)
-            return 'the emitted text differs from the model compiler\'s text in length (%d vs %d lines)' % (len(a), len(b))
+        want = sorted({'%s_%d' % (g[0], g[1]) for g in prog})
+        if io['compile'][1] != want:
+            return 'the compiled code defines %r, the model program has the predicates %r' % (io['compile'][1], want)
     return None
 
 _STATS = {'text_compared': 0}
